@@ -86,7 +86,7 @@ CHECKS = {
             'MSF/Clustal grammar as stated in the property (GCG checksum formula, blocks of at most 60 columns); kind taken from msa->biotype.',
             "4/C15"),
     "C16": (True,
-            'history monitor: interleaved job scripts executed by one driver process vs each job replayed alone in a fresh process (digests of status codes, msa dumps, scores, written bytes), plus allocation accounting (--wrap malloc family) read at quiescence and LeakSanitizer, under MALLOC_PERTURB_ values and heap-churn jobs',
+            'history monitor: interleaved job scripts executed by one driver process vs each job replayed alone in a fresh process (digests of status codes, msa dumps, scores, written bytes), plus allocation accounting (--wrap malloc family) read at quiescence and LeakSanitizer, with heap-churn jobs (mostly without MALLOC_PERTURB_, which would erase the stale heap data a history leaves behind)',
             "Histories of 5..60 library calls (kalign(), read of 1-2 files, run, dump, write, re-read, compare, rejected calls, 64->1->8 threads, DNA<->protein) with up to three msa-owning jobs interleaved are executed in one process; every job's digest must equal the digest of the same job alone in a fresh process, and after the last free the count of live blocks allocated from kalign code must be zero.",
             "MSF time stamp masked; allocations made inside libgomp are outside the accounting (the property's own exclusion); histories are sampled.",
             "4/C16"),
